@@ -751,6 +751,11 @@ func (ex *Exec) rangeInit(st *State, in *ssa.Range, x Value) Value {
 }
 
 func (ex *Exec) rangeNext(st *State, in *ssa.Next, it *RangeIter) Value {
+	if len(it.AltIt) > 0 {
+		return ex.forkN(st, nil, it.AltG, func(k int, s2 *State, _ *Frame) Value {
+			return ex.rangeNext(s2, in, it.AltIt[k])
+		})
+	}
 	posV, _ := st.heap.get(it.PosObj)
 	pos := posV.(*Term)
 	if in.IsString {
